@@ -61,6 +61,8 @@ MUTANTS = [
     ('multivector.py', "        return self.algebra.sub(other, self)", "        return self.algebra.sub(self, other)", 'delegation', '__rsub__'),
     ('multivector.py', "elif len(keys) != len(values):", "elif len(keys) > len(values):", 'new', 'length mismatch'),
     ('taperecorder.py', "expr = f'{func.__name__}({self.expr}, {other.expr})'", "expr = f'{func.__name__}({other.expr}, {self.expr})'", 'tape', 'emitted call passes the operand expressions'),
+    ('taperecorder.py', "sign = '-' if swaps % 2 else ''", "sign = '-' if swaps else ''", 'tape', '(-1)^parity * value at the position of the blade'),
+    ('taperecorder.py', "        if basis_blade not in self.algebra.canon2bin:\n            return self.__class__(", "        if self.algebra.canon2bin.get(basis_blade) is None:\n            return self.__class__(", 'tape', 'pass'),      # harmless: same test through .get
     ('taperecorder.py', "sw = __rshift__ = partialmethod(binary_operator, operator='sw')", "sw = __rshift__ = partialmethod(binary_operator, operator='proj')", 'tape', 'uses algebra.sw'),
     ('polynomial.py', "if diff < 0:", "if diff <= 0:", 'poly', 'Polynomial.__add__'),
     ('polynomial.py', "ea[0] += eb[0]", "ea[0] -= eb[0]", 'poly', 'Polynomial.__add__'),
@@ -179,7 +181,7 @@ def build_group(H, group):
     elif group == 'new':
         AC.vc_new(H)
     elif group == 'tape':
-        T.vc_tape_operators(H)
+        T.vc_tape_operators(H); T.vc_tape_getattr(H)
     elif group == 'prodgen':
         from contracts import inverse_c as IC
         IC.vc_products_generic(H, 'quick', only_ops=('lc', 'rc', 'rp'))
